@@ -186,7 +186,7 @@ def scen_cfgline(wcfg):
     if wcfg.get('four_bytes_as', True) or las > 65535:
         allowed.append(65)
     tick = wcfg.get('tick', 10.0)
-    return {'hold': wcfg.get('hold', 60), 'tnum': int(tick), 'tden': 1, 'las_hi': las >> 16, 'las_lo': las & 0xffff,
+    return {'hold': wcfg.get('hold', 60), 'tnum': wcfg.get('tnum', int(tick)), 'tden': wcfg.get('tden', 1), 'las_hi': las >> 16, 'las_lo': las & 0xffff,
             'caps': sorted(allowed), 'crt': int(wcfg.get('crt', 20) / tick), 'idle': int(wcfg.get('idle', 20) / tick)}
 
 
@@ -202,6 +202,8 @@ def run_scenarios(kind, tier, seed, workdir, procs=16):
         jobs = _c05_jobs(tier, seed)
     elif kind == 'C16':
         jobs = _in_child(_mk_c16, tier, seed)
+    elif kind == 'C03':
+        jobs = _in_child(_mk_c03, tier, seed)
     else:
         jobs = _c10_jobs(tier, seed)
     items = [(20000000 + i, j) for i, j in enumerate(jobs)]
@@ -235,7 +237,7 @@ def _mk_c10(tier, seed):
     jobs = []
     for cls, data in scenarios.fuzz_inputs(scenarios.world.REPO, tier, seed):
         for state in ('OPENSENT', 'OPENCONFIRM', 'ESTABLISHED'):
-            if tier == 'quick' and state != 'ESTABLISHED' and (len(jobs) % 3):
+            if tier == 'quick' and state != ('OPENSENT' if cls == 'FUZZ_OPEN' else 'ESTABLISHED') and (len(jobs) % 3):
                 continue
             jobs.append(('c10', wcfg, state, cls, data))
     return jobs
@@ -244,6 +246,11 @@ def _mk_c10(tier, seed):
 def _mk_c16(tier, seed):
     import scenarios
     return scenarios.c16_jobs(tier, seed)
+
+
+def _mk_c03(tier, seed):
+    import scenarios
+    return scenarios.c03j_jobs(tier, seed)
 
 
 def _c05_jobs(tier, seed):
